@@ -31,13 +31,14 @@ THEOREMS = [
     'Pyiga.Props.C08.schedule_independent',
     'Pyiga.Props.C08.sym_equiv', 'Pyiga.Props.C08.vec_skip_is_upper', 'Pyiga.Props.C08.block_transpose',
     'Pyiga.Props.C08.format_layout_index', 'Pyiga.Props.C08.format_layout_perm_bijective', 'Pyiga.Props.C08.format_layout_entry',
-    'Pyiga.Props.C08.subset_restriction',
+    'Pyiga.Props.C08.format_layout_maps', 'Pyiga.Props.C08.format_layout_maps_entrywise', 'Pyiga.Props.C08.format_layout_loop_rotation',
+    'Pyiga.Props.C08.subset_restriction', 'Pyiga.Props.C08.subset_bbox', 'Pyiga.Props.C08.subset_bbox_full_sum',
     'Pyiga.Props.C08.update_equiv', 'Pyiga.Props.C08.update_equiv_repaired', 'Pyiga.Props.C08.precompute_rule_before_after',
     'Pyiga.Props.C08.update_needs_independence', 'Pyiga.Props.C08.update_params_slots',
 ]
 MODULES = ['Pyiga.Model.Index', 'Pyiga.Model.MLMatrix', 'Pyiga.Model.Layout', 'Pyiga.Model.Assembler', 'Pyiga.Proofs.Index',
            'Pyiga.Proofs.Layout', 'Pyiga.Proofs.Chunks', 'Pyiga.Proofs.AsmSym', 'Pyiga.Proofs.AsmFormat', 'Pyiga.Proofs.AsmSum',
-           'Pyiga.Proofs.AsmUpdate', 'Pyiga.Props.C08']
+           'Pyiga.Proofs.AsmUpdate', 'Pyiga.Proofs.AsmBbox', 'Pyiga.Proofs.AsmFormatMaps', 'Pyiga.Props.C08']
 
 # (form of c01.FORMS, is the form symmetric?)
 CFG_FORMS = [('lapl_c', True), ('mass2', True), ('stiff3', True), ('conv1d', False), ('pg', False),
